@@ -354,6 +354,50 @@ def worker_pressure(seed):
     return desc, fails
 
 
+def wsgi_pressure(backend):
+    """A WSGI application (its iterable is consumed in a worker thread) streams a large response to a client that reads
+    nothing, over real sockets: the thread's sends wait like any other, the iterable is not run to its end."""
+    import socket
+    import time
+
+    from . import c14
+
+    produced = {"n": 0}
+    total = 400          # x 64 KiB = 25 MiB
+
+    def app(environ, start_response):
+        start_response("200 OK", [("Content-Type", "application/octet-stream")])
+
+        def gen():
+            for _ in range(total):
+                produced["n"] += 1
+                yield b"x" * 65536
+
+        return gen()
+
+    sv = c14.Served(backend, app, _mode="wsgi", graceful_timeout=0.5, shutdown_timeout=0.5)
+    first = sv.wait_listening()
+    desc = {"carrier": "h1-wsgi", "where": "mid", "release": "client-leaves", "backend": backend}
+    if first is None:
+        return desc, [{"signature": "harness:never-listening", "backend": backend, "error": repr(sv.result["error"])}]
+    first.close()
+    s = socket.socket()
+    s.setsockopt(socket.SOL_SOCKET, socket.SO_RCVBUF, 4096)
+    s.connect(("127.0.0.1", sv.port))
+    s.sendall(b"GET / HTTP/1.1\r\nHost: x\r\n\r\n")       # ... and reads nothing
+    time.sleep(1.0)
+    stalled_at = produced["n"]
+    time.sleep(0.3)
+    fails = []
+    desc["chunks_produced_while_stalled"] = produced["n"]
+    if produced["n"] >= total or produced["n"] != stalled_at:
+        fails.append({"signature": "wsgi-sends-not-held-back", "backend": backend, "desc": dict(desc),
+                      "what": f"{produced['n']} of {total} chunks of 64 KiB produced for a client that reads nothing"})
+    s.close()
+    sv.stop(5.0)
+    return desc, fails
+
+
 def run(ctx):
     n = ctx.scale(64, 640, 200)
     base = ctx.seed * 100000 + 50000
@@ -390,6 +434,10 @@ def run(ctx):
         oracle_failures.extend(f)
     for i in range(ctx.scale(40, 300, 100)):
         d, f = h2_negative_window(ctx.seed * 7919 + i)
+        descs.append(d)
+        oracle_failures.extend(f)
+    for backend in ("asyncio", "trio"):
+        d, f = wsgi_pressure(backend)
         descs.append(d)
         oracle_failures.extend(f)
     for i in range(ctx.scale(24, 160, 60)):
